@@ -32,12 +32,31 @@ def _resolve(path, dir_fd=None):
         return repr(path)
 
 
+def _rmtree_dirfd():
+    """shutil.rmtree walks with dir_fd-relative calls; the 'open' audit event does not carry the dir_fd: fetch it from the frame."""
+    f = sys._getframe(2)
+    for _ in range(8):
+        if f is None:
+            return None
+        if f.f_code.co_name.startswith("_rmtree_safe_fd"):
+            for name in ("topfd", "dirfd", "dir_fd"):
+                v = f.f_locals.get(name)
+                if isinstance(v, int):
+                    return v
+        f = f.f_back
+    return None
+
+
 def _hook(event, args):
     if not _ARMED:
         return
     try:
         if event == "open":
             path, mode, flags = (list(args) + [None, None, None])[:3]
+            if isinstance(path, (str, bytes)) and not os.path.isabs(os.fsdecode(path)):
+                dfd = _rmtree_dirfd()
+                if dfd is not None:
+                    path = _resolve(path, dfd)
             write = False
             if isinstance(flags, int):
                 write = bool(flags & (os.O_WRONLY | os.O_RDWR | os.O_CREAT | os.O_TRUNC | os.O_APPEND))
